@@ -74,20 +74,21 @@ extern ssize_t mpt_queue_peek(MPT_STRUCT(decode_queue) *qu, size_t max, void *ds
 	/* peek for new data */
 	ret = qu->_dec(&qu->_state, &src, 0);
 	len = qu->_state.data.pos;
-	msg.base = (uint8_t *) msg.base + len;
 	/* restore offsets */
 	qu->_state.data.pos = len + off;
 	qu->_state.curr += off;
 	len = qu->_state.data.len;
 	
-	if (ret < 0 || !dst) {
+	if (!dst) {
 		return len;
 	}
-	/* get data start and length */
+	/* decoded data is valid (and may be wrapped) even if decoder
+	 * refused to look for more (pending message, non-linear data) */
 	if (len > max) {
 		len = max;
 	}
-	(void) memcpy(dst, msg.base, len);
-	
+	if (len && mpt_queue_get(&qu->data, qu->_state.data.pos, len, dst) < 0) {
+		return MPT_ERROR(MissingData);
+	}
 	return len;
 }
